@@ -5,6 +5,12 @@ FAMILY_SHARDS = {
     "bloom": {"oracle_for": ["C23", "C15", "C17"]},
 }
 
+HIST_RULE = ("histories: 2-4 replicas (actor ids chosen so that later actors often sort first, varying lengths) edit maps, "
+             "lists, texts, counters, nested objects through the public API, commit, merge, switch actor, make empty changes; "
+             "the union of their changes is delivered to fresh documents along 4 (thorough: 6) schedules (in order, reversed, "
+             "one shuffled batch, shuffled small batches with duplicates) plus merge / save+load / shuffled load_incremental; "
+             "historical reads at recorded head sets. Non-trivial: >=2 replicas and >=5 ops; distinct by the list of change hashes.")
+
 PROPS = {
     "C23": dict(
         families=["bloom"],
@@ -17,6 +23,72 @@ PROPS = {
              "bits-per-entry / probe counts, short and long bit arrays). Non-trivial: a filter with >=1 entry (build) "
              "or a decoded filter that carries bits (parse); distinct by wire bytes.",
         assumptions=["bits_capacity's f64 arithmetic equals the exact ceiling for products below 2^53"],
+    ),
+    "C01": dict(
+        families=["hist"],
+        label="full for order-independence of the interpretation, heads and the causal queue; spec-level for the columnar op-set merge",
+        level_text="Theorems: the observation is a function of the set of operations (any permutation of a duplicate-free op list "
+                   "gives the same registers, conflict sets, sequence order, counters), heads are a function of the set of applied "
+                   "changes, and (QueueProofs) any two error-free delivery runs of the same set of changes apply the same set. "
+                   "The implementation's columnar merge is not modelled: it is tied to the model by comparing, for every generated "
+                   "history and several delivery schedules, heads / missing deps / every register of every object with the model, "
+                   "and by comparing replicas that took different paths (apply_changes in any order and batching, merge, save+load, "
+                   "load_incremental) with each other.",
+        rule=HIST_RULE,
+    ),
+    "C05": dict(
+        families=["hist", "conf"],
+        label="full",
+        level_text="Theorems over a model that mirrors apply_changes_batch / ChangeBatch::push / ChangeQueue (dedup by hash, "
+                   "duplicate (actor,seq) checks in the order the code performs them, release to a fixpoint): applied changes are "
+                   "always dependency-closed, nothing applicable stays queued, after any error-free run applied = delivered changes "
+                   "reachable from the empty document and queue = the rest (so arrival order is irrelevant), and get_missing_deps "
+                   "is exactly the specified set. Tied to the code by comparing status, heads and get_missing_deps after EVERY "
+                   "delivery of every schedule (reversed, shuffled, batched, duplicated; conflicting actor/seq universes).",
+        rule=HIST_RULE + " conf: universes where two diverged replicas share one actor id (conflicting sequence numbers), "
+             "delivered in shuffled small batches and then re-delivered; non-trivial when at least one call was rejected.",
+    ),
+    "C07": dict(
+        families=["hist"],
+        label="full",
+        level_text="Theorem obs_at_eq_restrict: for every well-formed history (decidable predicate, checked on each generated history) "
+                   "and every head set, the observation computed through the per-actor clock equals the observation of the document "
+                   "restricted to the ancestors of those heads; the clock covers an op iff its change is an ancestor. Tied to the code by "
+                   "comparing get_all/keys/length at heads with the model for recorded head sets (concurrent branches, merged states), and "
+                   "by comparing the same reads on fork_at(heads), whose heads must equal the given heads.",
+        rule=HIST_RULE,
+    ),
+    "C38": dict(
+        families=["conf", "hist"],
+        label="full (under seq_chain: every change has its actor's previous change among its ancestors)",
+        level_text="Invariant theorem: no document reached by accepted deliveries holds, applied or queued, two different changes with "
+                   "one (actor, seq); applied sequence numbers of an actor lie in 1..n. The model mirrors the three duplicate checks of "
+                   "the code. Tied to the code on universes in which two diverged replicas share an actor id: status of every call "
+                   "(accepted / DuplicateSeqNumber), heads, missing deps and state compared with the model; direct search for a "
+                   "document with a repeated (actor, seq) and for a document that cannot be saved and reloaded.",
+        rule="conf universes (see C05) + hist universes. Non-trivial: at least one rejected call (conf).",
+    ),
+    "C06": dict(
+        families=["conf"],
+        label="full for applied state / heads / two of three error exits; REFUTED for the queue on the third (known finding)",
+        level_text="Theorems: a failed apply_changes never changes the applied changes (hence heads and every read), never adds to the "
+                   "queue, and changes nothing when the collision is with a queued change or inside the batch. The full statement is "
+                   "refuted (C06_queue_unchanged_refuted): a collision with an applied (actor,seq) prunes held changes before returning "
+                   "the error — reported as KNOWN-FINDING. Tied to the code by snapshotting heads, full state and get_missing_deps "
+                   "around every rejected call, by comparing the post-error state with the model (which mirrors the pruning), and by "
+                   "save+load after every call. Transaction-level errors are covered under C03.",
+        rule="conf universes (see C05). Non-trivial: at least one rejected call.",
+    ),
+    "C02": dict(
+        families=["hist"],
+        label="spec-level: the model is the oracle",
+        level_text="The model's `observe` is the independent op-based reading (multi-value registers, visibility by successors, "
+                   "counters, RGA order by ascending-id insertion). Theorems characterise it exactly as the property words it "
+                   "(visible iff not named by a non-increment / non-counter successor; counter = initial + increments; winner = "
+                   "greatest id). The implementation's state after every delivery schedule is compared register by register "
+                   "(get_all of every key / index of every object, conflict sets with op ids) against the model applied to the ops "
+                   "decoded from the changes; a disagreement is a violation with the history as replay.",
+        rule=HIST_RULE,
     ),
 }
 
